@@ -277,7 +277,9 @@ func (cl *client) resetHdrCalls() {
 	cl.mu.Unlock()
 }
 
-func (cl *client) ChainID(ctx context.Context) (*big.Int, error) { return new(big.Int).Set(chainID), nil }
+func (cl *client) ChainID(ctx context.Context) (*big.Int, error) {
+	return new(big.Int).Set(chainID), nil
+}
 
 func (cl *client) HeaderByNumber(ctx context.Context, number *big.Int) (*types.Header, error) {
 	if cl.isDead() {
